@@ -123,7 +123,7 @@ pub fn cmd_fuzz(args: &[String]) -> i32 {
             if let Some(o) = calls::call(name, &a, &input) {
                 let line = json!({"id": id, "fn": name, "a": args_json(&a), "input": [{"lit": input, "fill": [0,0,0]}],
                                   "res": o.res, "rem_ok": o.rem_ok, "alloc": o.alloc, "len": input.len(),
-                                  "fmt_panic": o.fmt_panic, "foreign": o.stats.foreign, "max_end": o.stats.max_end});
+                                  "fmt_panic": o.fmt_panic.clone().unwrap_or_default(), "foreign": o.stats.foreign, "max_end": o.stats.max_end});
                 writeln!(out, "{}", line).unwrap();
                 n += 1;
             }
